@@ -440,7 +440,7 @@ def run_once(rep, path):
             return False
 
     env.update({"calls_to": _calls_to, "raised": _raised, "returned": _returned, "encodable": _encodable,
-                "clock_first": lambda: __import__("datetime").datetime.now(), "clock_last": lambda: __import__("datetime").datetime.now()})
+                "clock_first": lambda: _model_clock(rep, 0), "clock_last": lambda: _model_clock(rep, -1)})
     env.update({"result": res.get("value"), "old": old, "exc": type(exc).__name__ if exc is not None else None,
                 "implies": lambda a, b: (not a) or bool(b), "iff": lambda a, b: bool(a) == bool(b),
                 "calls": log, "ncalls": len(log)})
@@ -520,6 +520,15 @@ def fake_clock(mod, model):
             setattr(_time, k, v)
         for k, v in saved.items():
             setattr(mod, k, v)
+
+
+def _model_clock(rep, which):
+    """first / last clock reading of the model (the call ran under fake_clock with exactly these readings)"""
+    import datetime as _dt
+    c = _Clock(rep.get("model", {}))
+    if not c.vals:
+        return _dt.datetime.now()
+    return _dt.datetime.fromtimestamp(1_700_000_000 + c.vals[which])
 
 
 def xcheck_file(path):
